@@ -1,4 +1,6 @@
 import EmmyVerif.Lemmas.ScopeSim
+import EmmyVerif.Lemmas.ScopeRange
+import EmmyVerif.Lemmas.ScopeTrace
 /-!
 # C13 — Names resolve to the declaration Lua's scoping rules select
 
@@ -52,6 +54,40 @@ theorem visit_positions_irrelevant (fs : List Frame) (q : Nat) (h : Sorted fs q)
     findDecl fs n q = findN (vis fs none true) n := by
   have := visit_eq_vis fs q h htop n
   simpa [findDecl, findN] using this
+
+/-! ## `find_scope` and `is_in_body_block` on explicit scope ranges
+
+`chunkTree p` is the complete scope tree with the ranges `create_scope` receives (syntax-node ranges);
+`pathTree` is `find_scope` (enter the first child scope whose range contains the position, repeat). The
+model of the walk keeps only the open scopes and starts every lookup at the innermost one;
+`find_scope_is_innermost_open_scope` shows that this is what `find_scope` returns (the instrumentation field
+`trace` records position and open scopes of every lookup; `./check C13` also evaluates the statement on every
+generated program, `scope.findscope`). -/
+
+/-- **`find_scope(position)` is the innermost open scope** at every lookup of the walk: the open scopes
+(outermost first) are exactly the path `find_scope` takes through the chunk's scope tree -/
+theorem find_scope_is_innermost_open_scope (p : List Stat) :
+    ∀ e ∈ (walkOf p).trace, e.2.reverse = pathTree (chunkTree p) e.1 := lookups_start_at_find_scope p
+
+/-- the scope tree of every chunk is well nested: child ranges lie inside the parent's, in source
+order and without overlap -/
+theorem scope_tree_well_nested (p : List Stat) : wellNested (chunkTree p) = true := chunkTree_wellNested p
+
+/-- **`find_scope` ends in the innermost scope containing the position**: it enters exactly the
+scopes whose range contains it -/
+theorem find_scope_path (p : List Stat) (q : Nat) (hq : q < startPos + 2 * sizeBlock p + 1) :
+    pathTree (chunkTree p) q = containingTree (chunkTree p) q := find_scope_innermost p q hq
+
+/-- **`is_in_body_block`** ("some child scope of kind `Normal` contains the position") holds iff the
+child scope `find_scope` enters next is a block — the form the model of the walk uses -/
+theorem in_body_block_iff_next_is_block (cs : List RTree) (q lo hi : Nat) (h : chain lo hi cs = true) :
+    (cs.any fun c => decide (c.kind = .normal) && c.has q) =
+      (match pathForest cs q with
+       | (k, _) :: _ => decide (k = .normal)
+       | [] => false) := inBody_iff_next cs q lo hi h
+
+example : pathTree (chunkTree [.locl [0] [.lit], .forNum 0 (.name 0) (.name 0) [.callS 2 [.name 0]]]) 26
+    = [(.normal, 0), (.normal, 1), (.forRange, 10), (.normal, 21)] := by decide
 
 /-! ## Non-vacuity and the reference semantics on the cases the property names (tests) -/
 
